@@ -98,7 +98,8 @@ def lawsOk (t : VTable) : Bool :=
     `PathAndQuery` parser accepts prints as a value that the parser accepts and prints unchanged
     (judged when the printed value is in the table — in particular when it prints as itself); a
     built `Uri` has exactly the parts it was built from; a scheme, an authority and a
-    path-and-query that each parse to themselves always build. -/
+    path-and-query that each parse to themselves always build; so does such an authority alone
+    (the authority-form target of a plain CONNECT). -/
 def roundTripOk (t : VTable) : Bool :=
   let idem (l : List (Bytes × Option Bytes)) : Bool :=
     l.all (fun (v, r) => match r with
@@ -114,6 +115,7 @@ def roundTripOk (t : VTable) : Bool :=
     | some s', some p' =>
       !(lookup t.s s' == some (some s') && lookup t.a a == some (some a) &&
         lookup t.p p' == some (some p')) || r.isSome
+    | none, none => !(lookup t.a a == some (some a)) || r.isSome
     | _, _ => true)
 
 /-! ### printing -/
@@ -266,7 +268,7 @@ def handle : List String → String
       else if op == "cli" then
         let m := match recvResponse H fs with
           | .ok (s, hm) => s!"ok status {s} headers {showFields (hmIter hm)}"
-          | .err e => showRefusalFull (siteRecvResponse e)
+          | .err e => showRefusalFull (siteRecvResponse (recvResponseSecond H fs) e)
           | .panic => "panic"
         m ++ " ## " ++ specCli H fs
       else if op == "trl" then
